@@ -109,11 +109,140 @@ def random_histories(ctx, prop, mine, binpath, only=None, seed=None):
                               prop, ",".join(hit), c["lex"], c["maxFiles"], c["maxSize"], c["reuse"]))
 
 
+EMITTER_CLAUSES = {
+    # C07 carried through: a successful flush means written and synced (or failed for good / truncated)
+    "flush": {"FlushMeansProcessed", "Durable"},
+    # C09 carried through: emit never blocks, the queue is bounded, overflow drops the oldest, counted
+    "bounded": {"EmitNeverBlocks", "QueueBounded", "DropsOldestCounted"},
+    # C10 at the level of the whole emitter: what reaches the files are whole events
+    "records": C10,
+}
+
+
+def file_emitter_phase(ctx, prop, clauses=("records",), only=None, seed=None):
+    """End-to-end binding of the rolling-file emitter (code -> spec): a REAL FileSet
+    (emit_file::verif::spawn_with) over the fault-injecting, stallable in-memory filesystem,
+    2-3 emitting threads, flushes at seeded moments; the environment of every scenario
+    (capacity x configuration x fault x stall window) is enumerated by TLC from
+    spec/FileEmitterScen.tla; every recorded trace is decided by TLC against
+    spec/FileEmitterTrace.tla.  `clauses`: which groups of EMITTER_CLAUSES the calling
+    property reports ("flush" for C07, "bounded" for C09, "records" for C10)."""
+    import random
+    from concurrent.futures import ThreadPoolExecutor
+    mine = set()
+    for c in clauses:
+        mine |= EMITTER_CLAUSES[c]
+    seed = ctx.seed if seed is None else seed
+    r = ctx.tlc("FileEmitterScen", "FileEmitterScen.cfg", workers=1, timeout=300, xmx="1g",
+                label="FileEmitterScen", coverage=False)
+    if r.violated:
+        raise vlib.ToolError("FileEmitterScen.tla: %s" % r.violated)
+    scen = sorted(vlib.iter_printed(r.out_path, "SCEN"))
+    if len(scen) != r.distinct or not scen:
+        raise vlib.ToolError("TLC printed %d scenario environments for %d states" % (len(scen), r.distinct))
+    if only is not None:
+        pick = [only]
+    elif ctx.quick:
+        pick = sorted(random.Random(seed).sample(range(len(scen)), 100))
+    else:
+        pick = list(range(len(scen)))
+    nproc = 1 if only is not None else (4 if ctx.quick else 8)
+    bindir = ctx.cargo_build("vh_file", bins=["c07_file_inj"])
+    exe = os.path.join(bindir, "c07_file_inj")
+    parts = []
+    for k in range(nproc):
+        sp = os.path.join(ctx.out, "inj-scen-%d.ndjson" % k)
+        with open(sp, "w") as f:
+            for i in pick[k::nproc]:
+                f.write(json.dumps({"sid": i, "scen": json.loads(scen[i])}) + "\n")
+        parts.append((sp, os.path.join(ctx.out, "inj-trace-%d.ndjson" % k),
+                      os.path.join(ctx.out, "inj-index-%d.json" % k)))
+    with ThreadPoolExecutor(nproc) as ex:
+        list(ex.map(lambda a: ctx.run_harness(exe, list(a), timeout=2400,
+                                              env={"VERIF_SEED": str(seed)}), parts))
+    trace = os.path.join(ctx.out, "inj-trace.ndjson")
+    meta = {"scenarios": 0, "events": 0, "emits": 0, "flushes": 0}
+    scen_of = {}
+    with open(trace, "w") as fo:
+        for _, tp, ip in parts:
+            with open(tp) as f:
+                for line in f:
+                    if not line.startswith('{"ev":"fin"'):
+                        fo.write(line)
+            m = json.load(open(ip))
+            for k in meta:
+                meta[k] += m[k]
+            for x in m["index"]:
+                scen_of[x["sid"]] = x["scen"]
+            os.remove(tp)
+        fo.write('{"ev":"fin"}\n')
+    vs = {}
+    for i, shard in enumerate(shards(trace, os.path.join(ctx.out, "inj-shard"), 250000)):
+        rr = ctx.validate_trace("MCFileEmitterTrace", "FileEmitterTrace.cfg", shard,
+                                label="tv-emitter-%d" % i, timeout=1500, xmx="4g")
+        if rr.violated:
+            raise vlib.ToolError("FileEmitterTrace.tla did not accept the recorded trace (%s):\n%s" % (
+                rr.violated, vlib.tail_of(rr.out_path, 15)))
+        for p in vlib.iter_printed(rr.out_path, "VERDICT"):
+            v = json.loads(p)
+            vs[v["sid"]] = v
+        os.remove(shard)
+    if len(vs) != meta["scenarios"]:
+        raise vlib.ToolError("monitor printed %d verdicts for %d end-to-end scenarios" % (
+            len(vs), meta["scenarios"]))
+    ctx.cov["traces_validated_against_impl"] += meta["scenarios"]
+    cov = {"scenarios": meta["scenarios"], "events": meta["events"], "emits": meta["emits"],
+           "flushes": meta["flushes"], "environments_enumerated": len(scen),
+           "with_emits_during_stall": sum(1 for v in vs.values() if v["stallEmits"] > 0),
+           "with_truncation": sum(1 for v in vs.values() if v["ntrunc"] > 0),
+           "with_permanent_failure": sum(1 for v in vs.values() if v["nfailed"] > 0),
+           "events_reported_written": sum(v["nacked"] for v in vs.values())}
+    ctx.cov["file_emitter_e2e"] = cov
+    ndrift = 0
+    nhit = 0
+    for sid, v in sorted(vs.items()):
+        bad = set(v["bad"])
+        hit = sorted(bad & mine)
+        sc = scen_of[sid]
+        if hit:
+            nhit += 1
+            env_s = "cap=%s maxFiles=%s maxSize=%s reuse=%s fault=%s@%s stall=%s" % (
+                sc["cap"], sc["maxFiles"], sc["maxSize"], sc["reuse"], sc["fault"]["kind"],
+                sc["fault"]["at"], sc["stall"])
+            ctx.violation("%s %s broken by the real FileSet end to end; %s" % (prop, ",".join(hit), env_s),
+                          {"inj": {"sid": sid, "seed": seed}, "scen": sc, "clauses": hit},
+                          signature="%s e2e %s %s" % (prop, ",".join(hit), env_s))
+            by_clause = ctx.cov.setdefault("violations_by_clause", {})
+            for h in hit:
+                by_clause[h] = by_clause.get(h, 0) + 1
+        elif "QueueModel" in bad:
+            ndrift += 1
+    # vacuity guard (only meaningful when the implementation behaved: a broken emitter may
+    # well make the scenarios degenerate, and then the violations above are the verdict)
+    if only is None and not nhit and not (
+            cov["with_emits_during_stall"] and cov["with_truncation"] and
+            cov["with_permanent_failure"] and cov["events_reported_written"]):
+        raise vlib.ToolError("vacuity: end-to-end scenarios without stall/truncation/failure: %s" % cov)
+    if ndrift:
+        vlib.log("MODEL-DRIFT: %d end-to-end scenarios in which the queue of FileEmitterTrace.tla "
+                 "differs from the channel's own snapshot" % ndrift)
+        ctx.cov["drift_runs"] = ctx.cov.get("drift_runs", 0) + ndrift
+    ctx.assumptions += [
+        "end to end: emit_file::verif::spawn_with repeats the 10 lines of FileSetBuilder::spawn_inner (channel, thread, worker) "
+        "with an injected filesystem / clock / rng / capacity; event order comes from emit_batcher's verif hook events "
+        "(sequence numbers taken under the channel lock) and the harness's own (before a request / after a return)",
+        "end to end: channel delays scaled (1 ms -> 2 us); OS scheduling decides the interleavings (only adds accepted traces)",
+    ]
+
+
 def run(ctx, prop, mine, cfgs, extra_runs=None):
     """cfgs: list of (cfg file, workers).  mine: the clause names of this property."""
     bindir = None
     binname = "c10_fileset" if prop == "C10" else "c11_fileset"
     rc = ctx.replay_case()
+    if rc is not None and "inj" in rc:
+        file_emitter_phase(ctx, prop, ("records",), only=rc["inj"]["sid"], seed=rc["inj"]["seed"])
+        return
     if rc is not None and "random" in rc:
         bindir = ctx.cargo_build("vh_file", bins=[binname])
         random_histories(ctx, prop, mine, os.path.join(bindir, binname),
@@ -222,6 +351,8 @@ def run(ctx, prop, mine, cfgs, extra_runs=None):
                 ctx.cov["drift_runs"] = ctx.cov.get("drift_runs", 0) + ndrift
     if rc is None and bindir is not None:
         random_histories(ctx, prop, mine, os.path.join(bindir, binname))
+    if rc is None and prop == "C10":
+        file_emitter_phase(ctx, prop, ("records",))
     ctx.cov["cases"] = total_cases
     missing = [a for a in ACTIONS if taken and not taken.get(a)]
     if missing:
